@@ -673,59 +673,122 @@ Print Assumptions C12_no_overtake_needs_holder_free.
 
    Question: is [keyed s l] (every live entry's stored key = the waiter's current effective
    priority) an invariant for NESTED waiters on this domain (no OSetPrio executed)?
-   Answer: NO, as soon as a waiter can be cancelled.  [C12_keyed_fails_fixed_order] (finding F17;
-   computed run, reproduced on the real code: notes/C12.md).  Three locks taken in increasing
-   order only:
+   With the code as it was: NO, as soon as a waiter can be cancelled (finding F17; computed run,
+   reproduced on the real code: notes/C12.md).  Three locks taken in increasing order only:
      O2 (task 0, priority 0)  holds lock 2 across three sleep(0);
      O1 (task 1, priority 5)  holds lock 1 and is queued on lock 2: future 3, key 5;
      U  (task 2, priority 7)  holds lock 0 and is queued on lock 1 (future 4);
      T  (task 3, priority -5) calls U.cancel() and then queues on lock 0 (held by U);
      W2 (task 4, priority 3)  queues on lock 2 afterwards: future 8, key 3.
-   When T arrives, U's future is cancelled but U has not run its `finally` yet, so
-   PriorityTask.propagate_priority(U) finds a RUNNABLE task, reschedules it and stops: it
-   neither re-keys U's entry nor notifies O1, the owner of the lock U is still queued on.
-   effective_priority(O1) = -5 (lock 1's waiter list still contains U), but O1's entry in lock 2
-   keeps key 5.  O2's release then completes W2's future (key 3 < 5) although O1 was strictly
-   more urgent (-5 < 3) in every state in which both were waiting (states 12, 13).
+   When T arrives, U's future is cancelled but U has not run its `finally` yet, so U is RUNNABLE
+   and still queued on lock 1: effective_priority(O1) = -5 (lock 1's waiter list still contains U).
+   Before the repair PriorityTask.propagate_priority(U) rescheduled the runnable U and stopped: it
+   neither re-keyed U's entry nor notified O1, the owner of the lock U is still queued on; O1's
+   entry in lock 2 kept key 5 and O2's release completed W2's future (key 3 < 5) although O1 was
+   strictly more urgent (-5 < 3) in every state in which both were waiting
+   ([C12_refuted_before_fix_F17]; the old text is [OrderExample.propagate_task_old], not in Model.v).
+   The repaired propagate_priority (Model.propagate_task: reschedule a runnable task AND pass the
+   notification on through the lock it is still queued on) re-keys both entries and the release
+   wakes O1 ([C12_repaired_F17_example]).
    What IS proved towards the invariant: effective priorities are local ([C12_eprio_local]);
    release() by a task without row keeps [keyed] for all locks ([C12_keyed_release]); arrival and
    leaving re-key the blocked holder chain ([C12_key_tracks_eprio], [C12_rekey_on_leave], above). *)
 From Asynkit Require Import Sched.OrderInv Sched.OrderPass Sched.OrderThms Sched.OrderExample
   Sched.InheritLocal.
 
-Theorem C12_keyed_fails_fixed_order :
+(* kpre: the state just before T's arrival (U.cancel() issued from outside so that it is a state
+   of a run; T has not started).  kold11 / kold12: T's acquire(lock 0) and then W2's
+   acquire(lock 2) with the OLD propagate_priority, applied at lock level in kpre. *)
+Theorem C12_refuted_before_fix_F17 :
   let s0 := init_st false 0 [] [LPrio; LPrio; LPrio] [] 0 in
-  (* the run is in the domain, to its end *)
+  (* the pre-arrival state is reachable in the CURRENT model, on the fixed-order domain *)
+  kpre = fold_left do_action kactsX s0 /\ reachable_ord kpre /\ ranked kpre /\
+  (* in kpre: U's future 4 is cancelled, U is runnable and still queued on lock 1; O1's entry in
+     lock 2 has key 5 = its effective priority; `keyed` holds for all three locks *)
+  (fstate_ (getf kpre 4) = FCancelled /\ task_is_runnable kpre 2 = true /\
+   twaiting (gett kpre 2) = Some 1 /\ lwt (getl kpre 1) = [(4, 2)] /\
+   arr (lpq (getl kpre 2)) = [mkE 5%Q 0 3] /\ Qred (effective_priority kpre 1) = 5%Q /\
+   keyed kpre 0 /\ keyed kpre 1 /\ keyed kpre 2) /\
+  kold11 = fst (OrderExample.acquire_p_start_old kpre 3 0) /\
+  kold12 = fst (OrderExample.acquire_p_start_old kold11 4 2) /\
+  (* after T's arrival with the old text: O1 has effective priority -5, its entry in lock 2 keeps 5 *)
+  arr (lpq (getl kold11 2)) = [mkE 5%Q 0 3] /\ Qred (effective_priority kold11 1) = (-5)%Q /\
+  (* after W2's arrival: W2 queued with key 3; both entries live; effective priorities of O1, W2 *)
+  ranked kold12 /\
+  arr (lpq (getl kold12 2)) = [mkE 3%Q 1 8; mkE 5%Q 0 3] /\ lwt (getl kold12 2) = [(3, 1); (8, 4)] /\
+  fdone kold12 3 = false /\ fdone kold12 8 = false /\
+  map (fun t => Qred (effective_priority kold12 t)) [1; 4] = [(-5)%Q; 3%Q] /\
+  ~ keyed kold12 2 /\
+  (* O1's entry is `before` W2's (strictly more urgent) ... *)
+  before kold12 2 (mkE 5%Q 0 3) (mkE 3%Q 1 8) /\
+  (* ... but O2's release grants lock 2 to W2 while O1 keeps waiting *)
+  release_p kold12 0 2 = (wake_up_first_p (pre_wake kold12 0 2) 2, RVal 0) /\
+  before (pre_wake kold12 0 2) 2 (mkE 5%Q 0 3) (mkE 3%Q 1 8) /\
+  map (fun f => fstate_ (getf (fst (release_p kold12 0 2)) f)) [3; 8] = [FPending; FResult 1] /\
+  (* the old and the current text agree unless a task is runnable and still queued on a lock *)
+  (forall fuel s t,
+     (forall u, task_is_runnable s u = true -> twaiting (gett s u) = None) ->
+     propagate_task fuel s t = OrderExample.propagate_task_old fuel s t).
+Proof.
+  cbv zeta.
+  destruct kpre_facts as (P1 & P2 & P3 & P4 & _ & _ & _ & _ & _ & K0 & K1 & K2).
+  destruct kold_facts as (_ & A2 & _ & B1 & B2 & B3 & B4 & B5 & _ & _ & NK & BF).
+  destruct kold_handover as (G & _ & H & J).
+  split; [vm_compute; reflexivity|]. split; [exact kpre_reachable_ord|]. split; [exact kpre_ranked|].
+  split.
+  { split; [exact P1|]. split; [exact P2|]. split; [exact P3|]. split; [exact P4|].
+    split; [vm_compute; reflexivity|]. split; [vm_compute; reflexivity|].
+    split; [exact K0|]. split; [exact K1|exact K2]. }
+  split; [exact kold11_def|]. split; [exact kold12_def|].
+  split; [exact A2|]. split; [vm_compute; reflexivity|].
+  split; [exact kold12_ranked|].
+  split; [exact B1|]. split; [exact B2|]. split; [exact B3|]. split; [exact B4|]. split; [exact B5|].
+  split; [exact NK|]. split; [exact BF|]. split; [exact G|]. split; [exact H|].
+  split; [rewrite G; exact J|]. exact propagate_old_agrees.
+Qed.
+Print Assumptions C12_refuted_before_fix_F17.
+
+(* The repaired code on the same run (T cancels U and queues on lock 0 in one step): the run is
+   in the domain to its end; in state 11 U's entry in lock 1 and O1's entry in lock 2 have been
+   re-keyed to -5; in state 12 W2 is queued behind O1, `keyed` holds for lock 2; action 12 (O2's
+   release) completes O1's future, W2 keeps waiting.  knew11 = the current acquire_p_start applied
+   to kpre at lock level gives the same lock tables as state 11 of the run. *)
+Theorem C12_repaired_F17_example :
+  let s0 := init_st false 0 [] [LPrio; LPrio; LPrio] [] 0 in
   run_ok s0 kacts /\ run_ne s0 kacts /\ run_ord s0 kacts /\
   kst11 = tr s0 kacts 11 /\ kst12 = tr s0 kacts 12 /\ kst13 = tr s0 kacts 13 /\
   reachable_ord kst12 /\ ranked kst12 /\
-  (* state 11: T has arrived; U's future 4 is cancelled, U is still queued on lock 1; O1 already
-     has effective priority -5, its entry in lock 2 has key 5; W2 is not queued yet *)
+  (* state 11: T has arrived; U's future 4 is cancelled, U is still queued on lock 1 *)
   fstate_ (getf kst11 4) = FCancelled /\ lwt (getl kst11 1) = [(4, 2)] /\
-  arr (lpq (getl kst11 2)) = [mkE 5%Q 0 3] /\ Qred (effective_priority kst11 1) = (-5)%Q /\
-  (* state 12: W2 queued with key 3; both entries live; effective priorities of O1, W2 *)
-  arr (lpq (getl kst12 2)) = [mkE 3%Q 1 8; mkE 5%Q 0 3] /\ lwt (getl kst12 2) = [(3, 1); (8, 4)] /\
+  arr (lpq (getl kst11 1)) = [mkE (-5)%Q 0 4] /\
+  arr (lpq (getl kst11 2)) = [mkE (-5)%Q 0 3] /\ Qred (effective_priority kst11 1) = (-5)%Q /\
+  (* state 12: W2 queued with key 3 behind O1; both entries live *)
+  arr (lpq (getl kst12 2)) = [mkE (-5)%Q 0 3; mkE 3%Q 1 8] /\ lwt (getl kst12 2) = [(3, 1); (8, 4)] /\
   fdone kst12 3 = false /\ fdone kst12 8 = false /\
   map (fun t => Qred (effective_priority kst12 t)) [1; 4] = [(-5)%Q; 3%Q] /\
-  ~ keyed kst12 2 /\
-  (* O1's entry is `before` W2's (strictly more urgent) ... *)
-  before kst12 2 (mkE 5%Q 0 3) (mkE 3%Q 1 8) /\
-  (* ... but action 12 (O2's release) grants lock 2 to W2 while O1 keeps waiting *)
-  fstate_ (getf kst13 8) = FResult 1 /\ fstate_ (getf kst13 3) = FPending /\
-  In 3 (objs kst13 2) /\ In 8 (objs kst13 2).
+  keyed kst12 2 /\
+  before kst12 2 (mkE (-5)%Q 0 3) (mkE 3%Q 1 8) /\
+  (* action 12 (O2's release) grants lock 2 to O1; W2 keeps waiting *)
+  fstate_ (getf kst13 3) = FResult 1 /\ fstate_ (getf kst13 8) = FPending /\
+  In 3 (objs kst13 2) /\ In 8 (objs kst13 2) /\
+  (* the current text applied in kpre *)
+  knew11 = fst (acquire_p_start kpre 3 0) /\
+  arr (lpq (getl knew11 1)) = [mkE (-5)%Q 0 4] /\ arr (lpq (getl knew11 2)) = [mkE (-5)%Q 0 3] /\
+  map (fun l => arr (lpq (getl knew11 l))) [0; 1; 2] = map (fun l => arr (lpq (getl kst11 l))) [0; 1; 2].
 Proof.
   cbv zeta.
-  destruct k_facts as (A1 & A2 & A3 & A4 & B1 & B2 & B3 & B4 & B5 & C1 & C2 & C3 & C4).
+  destruct k_facts as (A1 & A2 & A3 & A4 & A5 & B1 & B2 & B3 & B4 & B5 & C1 & C2 & C3 & C4).
+  destruct knew_facts as (N1 & N2 & _ & N4).
   split; [exact krun_ok|]. split; [exact krun_ne|]. split; [exact krun_ord|].
   split; [vm_compute; reflexivity|]. split; [vm_compute; reflexivity|]. split; [vm_compute; reflexivity|].
   split; [exact kst12_reachable_ord|]. split; [exact kst12_ranked|].
-  split; [exact A1|]. split; [exact A2|]. split; [exact A3|]. split; [exact A4|].
+  split; [exact A1|]. split; [exact A2|]. split; [exact A3|]. split; [exact A4|]. split; [exact A5|].
   split; [exact B1|]. split; [exact B2|]. split; [exact B3|]. split; [exact B4|]. split; [exact B5|].
-  split; [exact k_not_keyed|].
-  split; [left; vm_compute; reflexivity|].
-  split; [exact C1|]. split; [exact C2|]. split; [exact C3|exact C4].
+  split; [exact kst12_keyed2|]. split; [exact kst12_before|].
+  split; [exact C1|]. split; [exact C2|]. split; [exact C3|]. split; [exact C4|].
+  split; [exact knew11_def|]. split; [exact N1|]. split; [exact N2|exact N4].
 Qed.
-Print Assumptions C12_keyed_fails_fixed_order.
+Print Assumptions C12_repaired_F17_example.
 
 (* Effective priorities are local.  Two states with acyclic wait-for graphs (rank functions
    within the recursion budget) and a set D of "dirty" tasks that is closed upwards (a waiter of
